@@ -53,11 +53,12 @@ def generate(seed: int, tier: str) -> Dict[str, Any]:
     target = r.weighted([("helper", 4), ("t1", 3), ("t2", 3)])
     prog: Dict[str, Any] = {"target": target, "sched_seeds": [int(r.u64() % (1 << 30)), int(r.u64() % (1 << 30))]}
     if target == "helper":
-        n = r.randint(0, 8)
+        n = r.randint(0, 8) if r.chance(0.7) else r.randint(9, 24)   # wide fan-outs too: every failure is reported, however many
+        p_fail = r.choice([0.0, 0.3, 0.5, 0.9, 1.0])
         tasks = []
         for i in range(n):
             tasks.append({"key": r.choice([0, 1, 2, 3, "a", "b"]) if r.chance(0.5) else i,
-                          "val": r.randint(0, 99), "exc": r.choice([None, None, None, "ValueError", "KeyError", "RuntimeError"])})
+                          "val": r.randint(0, 99), "exc": r.choice(["ValueError", "KeyError", "RuntimeError"]) if r.chance(p_fail) else None})
         keys = [t["key"] for t in tasks]
         if any(isinstance(k, str) for k in keys) and any(isinstance(k, int) for k in keys):
             for t in tasks:
